@@ -1,5 +1,6 @@
 import Proofs.SqlLoader
 import Proofs.SqlBuildProj
+import Proofs.SqlBuildFail
 
 /-!
   C12 — Loading fails only in documented ways and never half-applies input.
@@ -92,6 +93,48 @@ theorem build_success (u : UC) (stmts : List Stmt) (h : BuildOk u stmts) :
         (insOf u kind stmts).map (specCells u ⟨kind, attrs, [], refsOf u kind stmts, []⟩ attrs)⟩ :=
   ⟨build_ok u stmts h, builtClass_eq u stmts⟩
 
+/-- COMPLETENESS, definition phases: each documented cause makes the build end in the metamodel exception —
+    two class names equal after upper-casing; an identifier (with attributes) for an undeclared class; an association
+    whose source or target class is undeclared, whose key lists differ in length, or whose target class lacks a target
+    key (`RopBad`) — the latter two when the earlier phases succeed -/
+theorem build_outcome_complete_meta (u : UC) (stmts : List Stmt) :
+    (¬ KindsDistinct u (newTables stmts) → build u stmts = .error .metaErr) ∧
+    (KindsDistinct u (newTables stmts) →
+      (∃ kind name attrs, Stmt.createIndex kind name attrs ∈ stmts ∧ attrs ≠ [] ∧
+        ∀ c ∈ newTables stmts, sameKind u c.kind kind = false) → build u stmts = .error .metaErr) ∧
+    (KindsDistinct u (newTables stmts) →
+      (∀ kind name attrs, Stmt.createIndex kind name attrs ∈ stmts → attrs ≠ [] → ∃ c ∈ newTables stmts, sameKind u c.kind kind = true) →
+      (∃ rel sk sc skeys sp tk tc tkeys tp, Stmt.createRop rel sk sc skeys sp tk tc tkeys tp ∈ stmts ∧
+        RopBad u (newTables stmts) sk skeys tk tkeys) → build u stmts = .error .metaErr) :=
+  ⟨build_fails_duplicate u stmts, build_fails_index u stmts, build_fails_rop u stmts⟩
+
+/-- the first phase succeeds EXACTLY when the declared class names are distinct after upper-casing -/
+theorem classes_phase_iff (u : UC) (stmts : List Stmt) :
+    (∃ s, popClasses u stmts BState.empty = .ok s) ↔ KindsDistinct u (newTables stmts) := popClasses_ok_iff u stmts
+
+/-- COMPLETENESS, one INSERT (in whatever state the earlier statements left): a named INSERT with different numbers of
+    names and values raises the parsing exception; a positional INSERT into a declared class raises the metamodel
+    exception if a non-referential attribute has an unknown type, and the parsing exception if the types are known and
+    some value cannot be read for the type of its column -/
+theorem insert_outcome_complete (u : UC) (s : BState) (kind : Name) (values : List Text) :
+    (∀ n ns, (n :: ns).length ≠ values.length → popInstance u s kind values (some (n :: ns)) = .error .parseErr) ∧
+    (∀ c, s.find? u kind = some c → newRowOk u c = false → popInstance u s kind values none = .error .metaErr) ∧
+    (∀ c, s.find? u kind = some c → newRowOk u c = true → ¬ CellsOk u c.attrs values →
+      popInstance u s kind values none = .error .parseErr) :=
+  ⟨fun n ns h => popInstance_arity u s kind values n ns h,
+   fun c hf hr => popInstance_unknown_type u s kind values c hf hr,
+   fun c hf hr hc => popInstance_bad_value u s kind values c hf hr _ (positionalCells_bad u c c.attrs values hc)⟩
+
+/-- … and the first INSERT that fails decides the outcome of the build when the definition phases succeed -/
+theorem build_first_failing_insert (u : UC) (pre post : List Stmt) (kind : Name) (values : List Text) (names : Option (List Name))
+    (s1 s2 s3 s' : BState) (e : BuildErr)
+    (h1 : popClasses u (pre ++ Stmt.insert kind values names :: post) BState.empty = .ok s1)
+    (h2 : popIdents u (pre ++ Stmt.insert kind values names :: post) s1 = .ok s2)
+    (h3 : popAssocs u (pre ++ Stmt.insert kind values names :: post) s2 = .ok s3)
+    (hpre : popInstances u pre s3 = .ok s') (hins : popInstance u s' kind values names = .error e) :
+    build u (pre ++ Stmt.insert kind values names :: post) = .error e :=
+  build_fails_insert u pre post kind values names s1 s2 s3 s' e h1 h2 h3 hpre hins
+
 /-- statements other than INSERT never make a build end in the parsing exception -/
 theorem build_parsing_needs_insert (u : UC) (stmts : List Stmt) (h : build u stmts = .error .parseErr) :
     ∃ kind values names, Stmt.insert kind values names ∈ stmts := by
@@ -125,5 +168,29 @@ example (u : UC) : classify u [] = .accepted [] := by simp [classify, lex_nil, p
 /-- a duplicate class ends the build in the metamodel exception -/
 example (u : UC) : build u [.createTable ['A'] [], .createTable ['A'] []] = .error .metaErr := by
   simp [build, popClasses, defineClass, BState.find?, BState.empty]
+
+/-- a statement list that meets `BuildOk`: one class, one identifier, one reflexive association, one row -/
+example : BuildOk UC.ascii [.createTable ['A'] [(['i'], "INTEGER".toList)], .createIndex ['A'] ['I'] [['i']],
+    .createRop ['R', '1'] ['A'] ['1'] [['i']] [] ['A'] ['1'] [['i']] [], .insert ['A'] [['7']] none] := by
+  refine ⟨by unfold KindsDistinct; decide, ?_, ?_, ?_⟩
+  · intro kind name attrs hm _
+    simp only [List.mem_cons, List.mem_nil_iff, or_false, reduceCtorEq, false_or, Stmt.createIndex.injEq] at hm
+    obtain ⟨rfl, _, _⟩ := hm
+    exact ⟨_, List.mem_singleton.mpr rfl, by decide⟩
+  · intro rel sk sc skeys sp tk tc tkeys tp hm
+    simp only [List.mem_cons, List.mem_nil_iff, or_false, reduceCtorEq, false_or, Stmt.createRop.injEq] at hm
+    obtain ⟨_, rfl, _, rfl, _, rfl, _, rfl, _⟩ := hm
+    refine ⟨⟨_, List.mem_singleton.mpr rfl, by decide⟩, ⟨_, List.mem_singleton.mpr rfl, by decide⟩, rfl, ?_⟩
+    intro c hc _ k hk
+    simp only [newTables, List.mem_singleton] at hc; subst hc
+    simp only [List.mem_singleton] at hk; subst hk
+    decide
+  · intro kind values names hm
+    simp only [List.mem_cons, List.mem_nil_iff, or_false, reduceCtorEq, false_or, Stmt.insert.injEq] at hm
+    obtain ⟨rfl, rfl, rfl⟩ := hm
+    refine ⟨rfl, ⟨_, List.mem_singleton.mpr rfl, by decide⟩, ?_⟩
+    intro c hc _
+    simp only [newTables, List.mem_singleton] at hc; subst hc
+    exact ⟨by decide, by simp [CellsOk, deserialize, tyOfName, Gen.Persist.Ty.all, Gen.Persist.Ty.chars, UC.upper, UC.up, UC.ascii, asciiUpper, isAsciiLower, pyInt, isDigitText, isAsciiDigit]⟩
 
 end PyxProps.C12
